@@ -367,6 +367,47 @@ def moment_test(rnd, tier, k, force=None):
     return cfg, bad
 
 
+def public_api_moment_test(rnd, tier, wd, k):
+    """The same moment test through the public sample() call, one short run per chain, with the exact starting draws handed over the
+    way a user slices them out of an array (flat vectors, rows, columns)."""
+    import os
+    import hmclab
+    S, D = hmclab.Samplers, hmclab.Distributions
+    d = 2
+    mu = numpy.array([[0.5], [-1.0]])
+    var = numpy.array([[1.5], [0.5]])
+    target = D.Normal(mu, var)
+    n = 800 if tier == "quick" else 2400
+    kind = ["rwmh", "hmc"][k % 2]
+    form = ["flat", "row", "column"][(k // 2) % 3]
+    g = numpy.random.default_rng(7000 + k)
+    starts = mu + numpy.sqrt(var) * g.normal(size=(d, n))
+    ends = numpy.empty_like(starts)
+    f = os.path.join(wd, "pub.h5")
+    with contextlib.redirect_stdout(io.StringIO()), numpy.errstate(all="ignore"):
+        for j in range(n):
+            m0 = {"flat": starts[:, j].copy(), "row": starts[:, j:j + 1].T.copy(), "column": starts[:, j:j + 1].copy()}[form]
+            smp = (S.RWMH if kind == "rwmh" else S.HMC)(seed=10 * k + j)
+            kw = dict(stepsize=1.0) if kind == "rwmh" else dict(stepsize=0.4, amount_of_steps=3)
+            try:
+                smp.sample(f, target, proposals=3, initial_model=m0, overwrite_existing_file=True, disable_progressbar=True, **kw)
+            except Exception:  # noqa  (a form the sampler refuses is not the subject here)
+                numpy.seterr(all="warn")
+                return None, False
+            ends[:, j] = numpy.asarray(smp.current_model, dtype=float).flatten()
+    numpy.seterr(all="warn")
+    second = var + mu ** 2
+    fourth = 3 * var ** 2 + 6 * var * mu ** 2 + mu ** 4
+    z1 = numpy.abs(ends.mean(axis=1, keepdims=True) - mu) / numpy.sqrt(var / n)
+    z2 = numpy.abs((ends ** 2).mean(axis=1, keepdims=True) - second) / numpy.sqrt((fourth - second ** 2) / n)
+    dx = numpy.array([float(target.misfit(ends[:, j:j + 1].copy())) - float(target.misfit(starts[:, j:j + 1].copy())) for j in range(n)])
+    sd = float(numpy.std(dx, ddof=1))
+    zm = float(abs(dx.mean()) / (sd / math.sqrt(n))) if sd > 0 else 0.0
+    cfg = {"target": "gaussian", "kind": kind, "through": "sample()", "starting_model_form": form, "chains": n, "z_first": float(z1.max()), "z_second": float(z2.max()),
+           "z_misfit": zm}
+    return cfg, bool(z1.max() > 7 or z2.max() > 7 or zm > 7)
+
+
 def run(tier, seed):
     common.setup_env()
     rnd = random.Random(seed * 7919 + 4)
@@ -428,6 +469,16 @@ def run(tier, seed):
     for k, log in errors:
         violations.append(Violation("coq-error", "correspondence shard failed: " + log[-300:], {"log": log, "no_failing_input_found": True}))
     kinds = ["gaussian", "gaussian_full", "laplace", "mixture", "mixture_scalar", "truncated"]
+    wd2 = common.tmpdir("c04p_")
+    try:
+        for k in range(4 if tier == "quick" else 12):
+            cfgp, badp = public_api_moment_test(rnd, tier, wd2, k)
+            dist["moment_tests"] += 1
+            if badp:
+                violations.append(Violation(f"moments-public-api-{cfgp['kind']}", f"chains started from exact draws of the target (handed to sample() as {cfgp['starting_model_form']} vectors) leave it after 3 proposals: "
+                                            f"first / second moments are {cfgp['z_first']:.1f} / {cfgp['z_second']:.1f} standard errors off, the mean misfit {cfgp['z_misfit']:.1f} ({cfgp})", {"moment_cfg": cfgp}))
+    finally:
+        shutil.rmtree(wd2, ignore_errors=True)
     nm = 8 if tier == "quick" else 64
     for k in range(nm + 4):
         force = {"target": kinds[k % 8] if k % 8 < len(kinds) else "truncated"}                  # every target kind in every run
